@@ -522,5 +522,41 @@ def run(ctx):
                 run.instance(R6, {"fn": "select_coins_and_fee", "obligation": "after the assignment in bb%d, Ok is returned only through a total >= amount_with_fee edge" % d}, held=not bad)
                 if bad:
                     run.finding(Finding(R6, scf.id, "Ok(selection) is reachable after total / amount_with_fee were (re)computed without testing total >= amount_with_fee", site=c.site_of(scf, d), detail="path: %s" % cfg.describe_path(scf, cfg.path_to(par, bad[0]))))
+    R10 = "C01.R10"
+    run.rule(R10, "what is reserved is still spendable when it is reserved: initiation selects without reserving, the reservation is a later call - it re-reads every input and refuses one that another transaction has reserved or spent, or that was reorganised away, in the meantime (an error, nothing persisted)", floor=2)
+    from .shared import reservation_recheck
+    reservation_recheck(ctx, R10)
+    R11 = "C01.R11"
+    run.rule(R11, "the source account is the one the caller named: a source account name that does not exist is an error, not a silent fall-back to whichever account is active", floor=2)
+    PK11 = c.WB + "parent_key_id"
+    n11 = 0
+    for fid11 in (c.LW + "api_impl::owner::init_send_tx", c.LW + "api_impl::owner::process_invoice_tx"):
+        f11 = ctx.fn(fid11)
+        if f11 is None:
+            run.error("C01.R11: %s not found" % fid11)
+            continue
+        looks = [b for b, t in cfg.find_calls(f11, c.WB + "get_acct_path")]
+        # the account operands of the selection steps
+        acct_ops = []
+        for pat, ai in ((c.LW + "internal::tx::add_inputs_to_slate", 8), (c.LW + "internal::tx::create_late_lock_context", 5)):
+            for b, t in cfg.find_calls(f11, pat):
+                if len(t["a"]) > ai:
+                    acct_ops.append(t["a"][ai])
+        fallback = set()
+        for o in acct_ops:
+            fallback |= {x[2] for x in vf.origins(f11, o) if x[0] in ("call", "mutcall") and cfg.match_name(x[1], PK11)}
+        if not looks or not acct_ops:
+            run.error("C01.R11: account look-up / selection step not found in %s" % fid11)
+            continue
+        n11 += 1
+        after = set()
+        for lb in looks:
+            after |= set(cfg.reach(f11, starts=[lb]))
+        bad = sorted(fallback & after)
+        run.instance(R11, {"fn": pp.short(fid11), "obligation": "the active account feeds the selection only when no source account was named (not after a look-up of the named one)", "fall-back reads after the look-up": len(bad)}, held=not bad)
+        if bad:
+            run.finding(Finding(R11, fid11, "a source account name that does not exist falls back to the active account: the payment is built from (and reserves) outputs of an account the caller did not name", site=c.site_of(f11, bad[0])))
+    if n11 < 2:
+        run.error("C01.R11: expected init_send_tx and process_invoice_tx")
     run.not_decided += ["the conservation equation total = A + fee + change itself (numeric)", "'fee >= network minimum' as a number (relies on grin_core::libtx::tx_fee)", "arithmetic of the change split"]
     run.assumptions.append(_SUPPLY)
